@@ -339,24 +339,7 @@ func knownClass(e *eco, f failure, req string) string {
 		if (f.law == "match" || f.law == "matchrequirement") && strings.Contains(req, ",") && strings.Contains(f.v, "-") && cargoHasPartialComparator(req) && kf.Open("C03", "CargoPrereleaseMultiComparator") {
 			return "CargoPrereleaseMultiComparator"
 		}
-	case "pypi":
-		// PyPINotEqualPostRelease: "!=V" refuses V.postN (see the C16 finding).
-		if f.law == "match" && f.expected == "true" && notEqualHidesPost(req, f.v) && kf.Open("C03", "PyPINotEqualPostRelease") {
-			return "PyPINotEqualPostRelease"
-		}
-		// PyPIGreaterThanPostLost: ">V" does not admit V.postN; the library
-		// keeps that rule on the span (open lower bound at V), so it is lost when
-		// another comparator of the list moves the bound to V.postN itself.
-		if f.law == "match" && f.expected == "false" && greaterThanPostLost(req, f.v) && kf.Open("C03", "PyPIGreaterThanPostLost") {
-			return "PyPIGreaterThanPostLost"
-		}
 	case "maven":
-		// The same root cause seen through matching: a missing lower bound is
-		// taken to be "0", so a version that sorts below 0 (0-alpha-1,
-		// 0.0.0-SNAPSHOT) is outside (,X] although Maven's range contains it.
-		if f.law == "match" && f.expected == "true" && mavenEmptyLowerBound.MatchString(req) && semver.Maven.Compare(f.v, "0") < 0 && kf.Open("C03", "MavenOpenLowerBoundBelowZero") {
-			return "MavenOpenLowerBoundBelowZero"
-		}
 		if f.law == "rejected-nonempty" && mavenOpenLowerBelowZero.MatchString(req) && strings.Contains(f.observed, "max less than min") && kf.Open("C03", "MavenOpenLowerBoundBelowZero") {
 			return "MavenOpenLowerBoundBelowZero"
 		}
@@ -364,57 +347,7 @@ func knownClass(e *eco, f failure, req string) string {
 	return ""
 }
 
-var strictGreaterPyPI = regexp.MustCompile(`^\s*>\s*v?([0-9]+(?:\.[0-9]+)*)\s*$`)
-
-// greaterThanPostLost: the requirement has a comparator ">V" (V a plain release),
-// the candidate is a post-release of V, and another comparator names a
-// post-release of V as a bound.
-func greaterThanPostLost(req, v string) bool {
-	lv := strings.ToLower(v)
-	i := strings.Index(lv, "post")
-	if i < 0 {
-		return false
-	}
-	base, err := semver.PyPI.Parse(strings.TrimRight(lv[:i], ".-_"))
-	if err != nil {
-		return false
-	}
-	for _, c := range strings.Split(req, ",") {
-		m := strictGreaterPyPI.FindStringSubmatch(c)
-		if m == nil {
-			continue
-		}
-		if ov, err := semver.PyPI.Parse(m[1]); err == nil && ov.Compare(base) == 0 && strings.Contains(strings.ToLower(req), "post") {
-			return true
-		}
-	}
-	return false
-}
-
 var minLiteralC03 = regexp.MustCompile(`(^|[^0-9.])v?0(\.0){0,2}-0($|[^0-9A-Za-z.-])`)
-
-var notEqualOperand = regexp.MustCompile(`!=\s*v?([0-9]+(?:\.[0-9]+)*)[0-9A-Za-z._-]*\s*(?:,|$)`)
-
-// notEqualHidesPost: the candidate is a post-release with the release numbers
-// of the operand of some != comparator of the requirement (the operand itself
-// may be a prerelease of those numbers: packaging's ">V" looks at base versions).
-func notEqualHidesPost(req, v string) bool {
-	pv, err := semver.PyPI.Parse(v)
-	if err != nil || !strings.Contains(strings.ToLower(v), "post") {
-		return false
-	}
-	for _, m := range notEqualOperand.FindAllStringSubmatch(req, -1) {
-		if ov, err := semver.PyPI.Parse(m[1]); err == nil {
-			base := strings.ToLower(v)
-			base = base[:strings.Index(base, "post")]
-			base = strings.TrimRight(base, ".-_")
-			if bv, err := semver.PyPI.Parse(base); err == nil && bv.Compare(ov) == 0 && pv.Compare(ov) > 0 {
-				return true
-			}
-		}
-	}
-	return false
-}
 
 // cargoHasPartialComparator reports whether some comparator of a comma list
 // is written with fewer than three components or a wildcard (or is an exact
@@ -442,13 +375,22 @@ func cargoHasPartialComparator(req string) bool {
 	return false
 }
 
-var mavenEmptyLowerBound = regexp.MustCompile(`[\[(]\s*,`)
-
 var mavenOpenLowerBelowZero = regexp.MustCompile(`\(,0(\.0)*-(?i:alpha|beta|milestone|rc|cr|snapshot|a[0-9]|b[0-9]|m[0-9])`)
 
 // C02 owns these ordering findings; candidates of those shapes are kept out
 // of the Maven pool so that C03 reports matching, not ordering.
 var mavenOrderingFindingShapes = regexp.MustCompile(`(?i)(ga|final|release)-snapshot|[a-z][-.]?0+-snapshot`)
+
+// finalRelease: digits and dots only (the property's PyPI candidates are final
+// releases; pre/dev/post/local/epoch candidates are outside its quantifier).
+func finalRelease(v string) bool {
+	for _, c := range v {
+		if c != '.' && (c < '0' || c > '9') {
+			return false
+		}
+	}
+	return v != ""
+}
 
 func allZeroRelease(v string) bool {
 	for _, c := range v {
@@ -466,7 +408,7 @@ func prop(e *eco) func(*rapid.T) {
 		boundary := map[string]bool{}
 		var pool []string
 		for _, v := range full {
-			if e.name == "pypi" && allZeroRelease(v) {
+			if e.name == "pypi" && (allZeroRelease(v) || !finalRelease(v)) {
 				continue
 			}
 			boundary[v] = true
@@ -475,7 +417,7 @@ func prop(e *eco) func(*rapid.T) {
 		n := rapid.IntRange(0, 3).Draw(t, "nrand")
 		for i := 0; i < n; i++ {
 			v := e.rv.Draw(t, "rv")
-			if e.name == "pypi" && allZeroRelease(v) {
+			if e.name == "pypi" && (allZeroRelease(v) || !finalRelease(v)) {
 				continue
 			}
 			if e.name == "maven" && mavenOrderingFindingShapes.MatchString(v) {
